@@ -17,7 +17,8 @@ STUBS = [
 ASSUMES = [
     "reference time given by canonical local civil fields of the zone under test, year in C14_Y0..C14_Y1 (see bounds); covers every instant of those years",
     "every zone is a FIXED offset (no DST transitions); |offset| <= C14_OFFMAX seconds for the tested zone, the ambient zone and the unset-TZ zone",
-    "ambient TZ is either unset or the opaque string 'AMB'; the named tz argument is any string of <= 3 chars (incl. empty, containing '=') other than 'UTC'/'AMB'",
+    "ambient TZ is either unset or the opaque string 'AMB'; the named tz argument is any string of <= 3 chars (incl. empty, containing '=') other than "
+    "'UTC'/'AMB' in pil_to_time*, the fixed name 'NMD' in the window obligations (change_tz/restore_tz/localtime_tz are shared code)",
     "time_t is 64 bit (this platform): inside the year bounds no result is unrepresentable, so the EOVERFLOW exits are unreachable and not exercised",
     "PIL restricted to 20 bits",
 ]
@@ -36,8 +37,9 @@ def _defs(y0, y1, offmax, extra=None):
 
 
 def obligations(tier, seed):
-    Q = (1990, 2030, 50400)      # quick: years, |offset| <= 14 h
-    T = (1971, 2105, 57600)      # thorough: 1971..2105 (2038, 2100 non-leap inside), |offset| <= 16 h
+    # measured: cost does not depend on the range (no calendar inversion is left to the solver), so quick is already wide
+    Q = (1971, 2105, 57600)      # quick: local years 1971..2105 (2000 leap, 2038, 2100 non-leap inside), |offset| <= 16 h
+    T = (1971, 2420, 100000)     # thorough: ..2420 (2200, 2300 non-leap, 2400 leap), |offset| <= 27.7 h
     common = dict(harness="h_c14.c", models=["c14_time.c"], native_units=["src/misc.c"], units=[], stubs=STUBS,
                   assumes=ASSUMES, outside=OUTSIDE, vin_size=64, unwind=10)
     tzgrid = [{"TZMODE": 0}, {"TZMODE": 1}, {"TZMODE": 2}]
@@ -48,6 +50,10 @@ def obligations(tier, seed):
                        "successor-day step (=> forward function strictly monotone, hence injective: the lemma behind the model's hint), seconds stay inside "
                        "their day; the NATIVE smoke run of this harness compares the model with glibc gmtime_r/timegm (2e5 random instants, every year/March "
                        "boundary, denormalised mday/hour) and checks the multiply-shift /100",
+                  encodes=[], defines={"M14_YLO": 1890, "M14_YHI": 2410}, bounds="years 1890..2410, every second", timeout=300, **common))
+    obs.append(Ob("m14_hint_consistency", func="h_m14_hint_consistency",
+                  desc="the instant and the midnight registered by m14_hint_civil (what the harnesses build reference times from) equal the model's forward "
+                       "function secs_from_civil of the same fields",
                   encodes=[], defines={"M14_YLO": 1890, "M14_YHI": 2410}, bounds="years 1890..2410, every second", timeout=300, **common))
     obs.append(Ob("m14_six_month_lemma", func="h_m14_six_month_lemma",
                   desc="calendar corollary: month distance in [-6,+5] between canonical reference and PIL date => -215 d < t(PIL) - t(ref) < +184 d "
@@ -70,7 +76,8 @@ def obligations(tier, seed):
         obs.append(Ob("pil_to_time" + tname, func="h_pil_to_time", tier=tr, grid=tzgrid,
                       desc="vbi_pil_to_time with tz = NULL / \"UTC\" / named zone: same contract as lto_to_time with the zone's offset; tz NULL never touches the environment; "
                            "TZ cell and libc zone restored on every exit (incl. time(), setenv, mktime failures)",
-                      encodes=["vbi_pil_to_time", "localtime_tz", "valid_pil_lto_to_time"] + ENC_COMMON, defines=_defs(y0, y1, om), bounds=b,
+                      encodes=["vbi_pil_to_time", "localtime_tz", "valid_pil_lto_to_time"] + ENC_COMMON,
+                      defines=_defs(y0, y1, om, {"C14_TZ_SYMBOLIC": 1}), bounds=b + "; named tz = any string of <= 3 chars except UTC/AMB",
                       reach=["end", "ok", "feb29_ok", "feb29_refused", "other_year", "env_failure"],
                       timeout=300 if tr == "quick" else 1500, mem_gb=4, **common))
         obs.append(Ob("pty_window" + tname, func="h_pty_window", tier=tr, grid=tzgrid,
@@ -78,21 +85,26 @@ def obligations(tier, seed):
                            "leaves *begin/*end unchanged; TZ restored on every exit",
                       encodes=["vbi_pty_validity_window", "pty_utc_validity_window", "localtime_tz"] + ENC_COMMON, defines=_defs(y0, y1, om), bounds=b,
                       reach=["end", "pty_ok"], timeout=300 if tr == "quick" else 1500, mem_gb=4, **common))
-        obs.append(Ob("lto_window" + tname, func="h_lto_window", tier=tr,
-                      desc="vbi_pil_lto_validity_window: Annex F classes (unallocated => FALSE; months 13/14, invalid days, TC/RIT/INT/CONT, Feb 29 of a non-leap year => "
-                           "[TIME_MIN, TIME_MAX]; NSPV => PTY rule in UTC); dated PIL => begin = 00:00 local of the PIL day (20:00 the day before if hour < 4), "
-                           "end = 04:00 next day, length 28 h / 32 h, begin <= converted PIL < end, begin < end; TZ restored",
-                      encodes=["vbi_pil_lto_validity_window", "valid_pil_lto_validity_window", "valid_pil_lto_to_time", "pty_utc_validity_window"] + ENC_COMMON,
-                      defines=_defs(y0, y1, om), bounds=b,
-                      reach=["end", "win_unalloc", "win_indef", "win_feb29_indef", "win_28h", "win_32h", "win_env_failure", "pty_ok"],
-                      timeout=300 if tr == "quick" else 1500, mem_gb=4, **common))
-        obs.append(Ob("pil_window" + tname, func="h_pil_window", tier=tr, grid=tzgrid,
-                      desc="vbi_pil_validity_window with tz = NULL / \"UTC\" / named: same contract as lto_window in the zone of tz; NSPV => vbi_pty_validity_window; "
-                           "TZ restored on every exit",
-                      encodes=["vbi_pil_validity_window", "valid_pil_validity_window", "valid_pil_lto_validity_window", "vbi_pty_validity_window", "localtime_tz"] + ENC_COMMON,
-                      defines=_defs(y0, y1, om), bounds=b,
-                      reach=["end", "win_unalloc", "win_indef", "win_feb29_indef", "win_28h", "win_32h", "win_env_failure", "pty_ok"],
-                      timeout=300 if tr == "quick" else 1500, mem_gb=4, **common))
+        for cname, cls, creach, cdesc in (
+                ("_dated", 1, ["end", "win_feb29_indef", "win_28h", "win_32h", "win_env_failure"],
+                 "dated PILs (month 1..12, day valid for the month): Feb 29 of a non-leap inferred year => [TIME_MIN, TIME_MAX]; otherwise begin = 00:00 local of "
+                 "the PIL day in the nearest year (20:00 the day before if PIL hour < 4), end = 04:00 next day, length 28 h / 32 h, begin < end, "
+                 "begin <= converted PIL < end; FALSE iff environment failure"),
+                ("_codes", 2, ["end", "win_unalloc", "win_indef", "pty_ok"],
+                 "all other codes per Annex F: month 0 / unallocated => FALSE; months 13/14, invalid days, TC/RIT/INT/CONT => [TIME_MIN, TIME_MAX]; "
+                 "NSPV => PTY rule (begin = start, end = 04:00 of day+29)")):
+            obs.append(Ob("lto_window" + cname + tname, func="h_lto_window", tier=tr,
+                          desc="vbi_pil_lto_validity_window, " + cdesc + "; TZ restored on every exit",
+                          encodes=["vbi_pil_lto_validity_window", "valid_pil_lto_validity_window", "valid_pil_lto_to_time", "pty_utc_validity_window"] + ENC_COMMON,
+                          defines=_defs(y0, y1, om, {"C14_PILCLS": cls}), bounds=b, reach=creach,
+                          timeout=300 if tr == "quick" else 1500, mem_gb=4, **common))
+            obs.append(Ob("pil_window" + cname + tname, func="h_pil_window", tier=tr, grid=tzgrid,
+                          desc="vbi_pil_validity_window with tz = NULL / \"UTC\" / named, " + cdesc + " in the zone of tz (NSPV => vbi_pty_validity_window); "
+                               "TZ restored on every exit",
+                          encodes=["vbi_pil_validity_window", "valid_pil_validity_window", "valid_pil_lto_validity_window", "vbi_pty_validity_window",
+                                   "localtime_tz"] + ENC_COMMON,
+                          defines=_defs(y0, y1, om, {"C14_PILCLS": cls}), bounds=b, reach=creach,
+                          timeout=300 if tr == "quick" else 1500, mem_gb=4, **common))
 
     obs.append(Ob("lto_to_time_epoch_edge", func="h_lto_to_time_epoch", tier="thorough",
                   desc="vbi_pil_lto_to_time with start in 1969..1970 (64-bit time_t: all results representable): conversion correct, negative results returned; "
